@@ -40,7 +40,7 @@ Calls == {
   <<"map", ".replace(\"zz\", 5)">>, <<"map", ".remove(\"a\")">>, <<"map", ".clone()">>, <<"map", "[\"a\"]">>, <<"map", "[\"zz\"]">>,
   <<"fnv", ".is_closure()">>, <<"clo", ".is_closure()">>, <<"fnv", "()">>, <<"clo", "()">>, <<"fnv", "">>, <<"fnv", " is fv">>,
   <<"opt", " == nil">>, <<"opt", " == 4">>, <<"nilopt", " == nil">>, <<"opt", "">>, <<"nilopt", "">>, <<"obj", ".v">>, <<"obj", ".val()">>, <<"obj", ".me()">>,
-  <<"obj", " is bx">>, <<"obj", ".w">>, <<"obj", ".ws">>, <<"obj", ".mk(2)">>,
+  <<"obj", " is bx">>, <<"obj", ".w">>, <<"obj", ".ws">>, <<"obj", ".mk(2)">>, <<"obj", ".cb(2)">>, <<"obj", ".cb">>,
   <<"imap", "[1]">>, <<"imap", "[z1]">>, <<"imap", "[2 - 1]">>, <<"imap", "[B1]">>, <<"imap", ".len()">>, <<"imap", ".contains_key(2)">>, <<"imap", ".remove(2)">>,
   <<"fixl", "[0]">>, <<"fixl", "[2]">>, <<"fixl", ".len()">>, <<"fixl", ".reverse()">>, <<"fixl", ".remove(2)">>, <<"fixl", ".index_of(1)">>, <<"fixl", ".map(dbl)">>,
   <<"list", "[fl]">>, <<"list", "[op1]">>, <<"str", "[fl]">>, <<"list", "[z0 + z1]">>, <<"map", "[z0]">>, <<"lol", "[z0][z1]">> }
@@ -63,7 +63,8 @@ Prologue == <<"z0 = 0", "z1 = 1", "z2 = 2", "fl = 1.5", "il: [int...] = [1, 2, 3
               "dbl = fn(q: int) -> int { return q * 2 }", "big = fn(q: int) -> bool { return q > 1 }", "slen = fn(q: str) -> int { return q.len() }",
               "fact = fn(n: int) -> int {", "	if n <= 1 {", "		return 1", "	}", "	return n * self(n - 1)", "}",
               "op1: int? = 4", "op0: int? = nil",
-              "class Box {", "	v: int", "	w: str?", "	ws: [int...]", "	constructor(self) {", "		self.v = 1", "		self.w = nil", "		self.ws = [5]", "	}",
+              "class Box {", "	v: int", "	w: str?", "	ws: [int...]", "	cb: fn(int) -> int", "	constructor(self) {", "		self.v = 1", "		self.w = nil", "		self.ws = [5]",
+              "		self.cb = fn(q: int) -> int { return q + 1 }", "	}",
               "	fn val(self) -> int {", "		return self.v", "	}", "	fn me(self) -> Self {", "		return self", "	}",
               "	fn mk(self, n: int) -> [int...] {", "		return [n, self.v]", "	}", "}", "bx = Box()">>
 
